@@ -14,12 +14,9 @@ theorem stF_coll_some (w : World) (cfg : Cfg) (sk : SK) (t : Ty) {o : Obj} {os :
     rw [hi] at h; cases h
     cases stFL w cfg t os <;> rfl
 
-theorem stF_coll_none (w : World) (cfg : Cfg) (sk : SK) (t : Ty) {o : Obj} (hi : iterItems o = none) :
-    stF w cfg (.coll sk t) o = none := by
-  rw [stF]
-  split
-  · rfl
-  · rename_i xs h; rw [hi] at h; cases h
+theorem stF_coll_none (w : World) (cfg : Cfg) (sk : SK) (t : Ty) {o : Obj} (hi : iterItems o = none)
+    (hl : leafItems o = none) : stF w cfg (.coll sk t) o = none := by
+  rw [CattrsModel.stF_coll_none w cfg hi, Leaf.stLF_coll, hl]
 
 theorem stF_tuple_some (w : World) (cfg : Cfg) (ts : List Ty) {o : Obj} {os : List Obj} (hi : iterItems o = some os) :
     stF w cfg (.tupleHet ts) o = (stFT w cfg ts os).map (.coll .tuple) := by
@@ -28,12 +25,9 @@ theorem stF_tuple_some (w : World) (cfg : Cfg) (ts : List Ty) {o : Obj} {os : Li
   · rename_i h; rw [hi] at h; cases h
   · rename_i xs h; rw [hi] at h; cases h; rfl
 
-theorem stF_tuple_none (w : World) (cfg : Cfg) (ts : List Ty) {o : Obj} (hi : iterItems o = none) :
-    stF w cfg (.tupleHet ts) o = none := by
-  rw [stF]
-  split
-  · rfl
-  · rename_i xs h; rw [hi] at h; cases h
+theorem stF_tuple_none (w : World) (cfg : Cfg) (ts : List Ty) {o : Obj} (hi : iterItems o = none)
+    (hl : leafItems o = none) : stF w cfg (.tupleHet ts) o = none := by
+  rw [CattrsModel.stF_tup_none w cfg hi, Leaf.stLF_tup, hl]
 
 theorem stF_nt_some (w : World) (cfg : Cfg) (c : Nat) {o : Obj} {os : List Obj} (hi : iterItems o = some os) :
     stF w cfg (.nt c) o = if w.isNT c then (stFT w cfg (w.ntTys c) os).map (ntMk w c) else none := by
@@ -42,12 +36,9 @@ theorem stF_nt_some (w : World) (cfg : Cfg) (c : Nat) {o : Obj} {os : List Obj} 
   · rename_i h; rw [hi] at h; cases h
   · rename_i xs h; rw [hi] at h; cases h; rfl
 
-theorem stF_nt_none (w : World) (cfg : Cfg) (c : Nat) {o : Obj} (hi : iterItems o = none) :
-    stF w cfg (.nt c) o = none := by
-  rw [stF]
-  split
-  · rfl
-  · rename_i xs h; rw [hi] at h; cases h
+theorem stF_nt_none (w : World) (cfg : Cfg) (c : Nat) {o : Obj} (hi : iterItems o = none)
+    (hl : leafItems o = none) : stF w cfg (.nt c) o = none := by
+  rw [CattrsModel.stF_nt_none w cfg hi]; unfold leafFuel; rw [Leaf.stLF_nt_succ, hl]
 
 theorem stF_map_nondict (w : World) (cfg : Cfg) (mk : MK) (kt vt : Ty) {o : Obj} (ho : ∀ okvs, o ≠ .dict okvs) :
     stF w cfg (.map mk kt vt) o = none := by
